@@ -18,6 +18,8 @@ def run(tier, seed, replay=None):
 
     def still_fails(c):
         probe = Run("C04", tier, seed, RULE)
+        if c.get("many_pieces"):
+            return True
         res = run_case(probe, Driver(), dict(c), {})
         if res is None or not c.get("damage"):
             return False
@@ -29,7 +31,7 @@ def run(tier, seed, replay=None):
         [rc.make_case(run.rng, tier, damage=True, max_damage=3)
          for _ in range(200 if tier == "quick" else 1500)]
     for case in cases:
-        if not case["damage"]:
+        if not case["damage"] or case.get("many_pieces"):
             continue
         res = run_case(run, drv, case, exp)
         if res is None:
@@ -43,5 +45,42 @@ def run(tier, seed, replay=None):
         run.case(key(case), rc.nontrivial_damage(case), sample=case,
                  classes=[f"v{case['version']}", case["source"]] +
                  sorted({op[0] for op in case["damage"]}))
+    if not replay or replay["case"].get("many_pieces"):
+        many_pieces(run)
     settle(run, drv, exp)
     return run.finish()
+
+
+def many_pieces(run):
+    """More than 4096 pieces, the damage in the very first one: every piece counts, however many
+    follow (no model tie: the payload is too large for the line protocol)."""
+    import os
+    from harness import impl
+    from harness.common import Blob, sandbox
+    pl = 16384
+    for version, kind in ((1, "v1"), (2, "a2"), (3, "hy")):
+        with sandbox("c04m") as box:
+            root = os.path.join(box, "parent", "payload")
+            os.makedirs(root)
+            pat = Blob.rand(17, 1021).bytes()
+            sizes = {"a-first": 50 * pl + 9, "big": 4200 * pl + 1}
+            for name, n in sizes.items():
+                with open(os.path.join(root, name), "wb") as fd:
+                    fd.write((pat * (n // 1021 + 1))[:n])
+            mpath = os.path.join(box, "m.torrent")
+            case = {"many_pieces": True, "version": version, "pl": pl, "sizes": sizes,
+                    "damage": [["flip", "a-first", 0]]}
+            try:
+                impl.create(kind, root, mpath, piece_length=pl)
+                with open(os.path.join(root, "a-first"), "r+b") as fd:
+                    first = fd.read(1)
+                    fd.seek(0)
+                    fd.write(bytes([first[0] ^ 0xFF]))
+                result = impl.recheck_result(mpath, root)
+                cli = impl.cli(["recheck", mpath, os.path.dirname(root)])
+            except Exception as exc:
+                run.fail("impl-vs-spec", case, {"raised": repr(exc)})
+                continue
+            if not result < 100 or not cli < 100:
+                run.fail("impl-vs-spec", case, {"result": result, "cli": cli})
+            run.case(["many-pieces", version], True, sample=case, classes=["many-pieces"])
